@@ -1,2 +1,2 @@
 import Proofs.SpiceProofs
-import Proofs.LedgerReach
+import Proofs.Conservation
